@@ -484,9 +484,14 @@ def handleMerge (req : Json) : Except String Json := do
   match req.getObjVal? "want" with
   | .ok (.str "disjoint") => pure (Json.mkObj [("ok", .bool (Merge.disjoint S base ld rd))])
   | .ok (.str "keywise") =>
+      let side := fun (s : String) => (do
+        let ds ← Merge.decideMerge E base ld rd
+        applyAs s base (ds.map Merge.MD.toDecision) : Except Err J)
       pure (Json.mkObj [("ok", .bool (Merge.keywise base ld rd)),
                         ("merged", reply (Merge.mergeApply E base ld rd) encJ),
-                        ("patched", reply (patch base (Merge.keywiseUnion ld rd)) encJ)])
+                        ("patched", reply (patch base (Merge.keywiseUnion ld rd)) encJ),
+                        ("as_local", reply (side "local") encJ), ("as_remote", reply (side "remote") encJ),
+                        ("local", reply (patch base ld) encJ), ("remote", reply (patch base rd) encJ)])
   | _ => pure (reply (Merge.decideMerge E base ld rd) (fun ds => .arr (ds.map encMD).toArray))
 
 def handle (req : Json) : Except String Json := do
